@@ -60,7 +60,9 @@ def plan(seed, subbatch):
         members = keep
     forms = [cfg.choice(FORMS) for _ in members]
     hexcfg = {"timeframe": level_tf, "timeframe_fill": cfg.random() < 0.3,
-              "candlestick_type": "HA" if cfg.random() < 0.3 else None}
+              "candlestick_type": "HA" if cfg.random() < 0.3 else None,
+              # other spellings of the same settings
+              "tf_form": cfg.choice(("str", "str", "enum", "lower")), "ctype_form": cfg.choice(("str", "object"))}
     n = planlib.pick_n(cfg, (2, 12), (8, 60), (30, 200))
     widest = max([tf_seconds(m["common"]["timeframe"]) if m["common"].get("timeframe") else tf_seconds(level_tf) if level_tf else base_s
                   for m in members])
@@ -104,12 +106,25 @@ def _hex_kwargs(h):
     kw = {}
     if h.get("timeframe"):
         kw["timeframe"] = h["timeframe"]
+        if h.get("tf_form") == "lower":
+            kw["timeframe"] = h["timeframe"].lower()
+        elif h.get("tf_form") == "enum":
+            from hexital.utils.timeframe import TimeFrame
+
+            try:
+                kw["timeframe"] = TimeFrame(h["timeframe"])
+            except ValueError:
+                pass
     if h.get("timeframe_fill"):
         kw["timeframe_fill"] = True
     if h.get("lifespan_s") is not None:
         kw["candles_lifespan"] = timedelta(seconds=h["lifespan_s"])
     if h.get("candlestick_type"):
         kw["candlestick_type"] = h["candlestick_type"]
+        if h.get("ctype_form") == "object":
+            from hexital.utils.candlesticks import validate_candlesticktype
+
+            kw["candlestick_type"] = validate_candlesticktype(h["candlestick_type"])
     return kw
 
 
